@@ -20,6 +20,12 @@ import (
 // (so that a customised simulation builder, e.g. with the DB tracer started, can
 // be used). The body is a copy of simx.BuildChain.
 func buildChainIn(env *simx.Env, cfg simx.ChainCfg, ops []simx.MemOp) *simx.Chain {
+	return buildChainSlow(env, cfg, ops, "")
+}
+
+// buildChainSlow additionally selects the requester's response-retrieval mode
+// (see slowdriver.go).
+func buildChainSlow(env *simx.Env, cfg simx.ChainCfg, ops []simx.MemOp, slow string) *simx.Chain {
 	ch := &simx.Chain{Env: env, Cfg: cfg}
 	if cfg.NumMem < 1 {
 		cfg.NumMem = 1
@@ -161,7 +167,7 @@ func buildChainIn(env *simx.Env, cfg simx.ChainCfg, ops []simx.MemOp) *simx.Chai
 			ops[i].Dst = int(ops[i].Addr / simx.LineSize % uint64(len(memRemotes)))
 		}
 	}
-	ch.Driver = simx.NewDriver(env, "Driver", ops, cfg.Eager, targets, cfg.PortBuf)
+	ch.Driver = newDriver(env, "Driver", ops, cfg.Eager, targets, cfg.PortBuf, slow)
 	conn.PlugIn(ch.Driver.GetPortByName("Mem"))
 	return ch
 }
